@@ -11,6 +11,9 @@ na = []
 for pid in ids:
     if os.path.exists(os.path.join(ROOT, "checks", pid + ".py")):
         P = importlib.import_module(pid)
+        if not getattr(P, "READY", False):
+            na.append({"property_id": pid, "reason": "check under construction: " + PENDING})
+            continue
         checks.append({
             "property_id": pid,
             "quick_cmd": "bin/check %s --tier quick" % pid,
